@@ -198,6 +198,42 @@ theorem ri_step (acc : Bytes → Nat) (ext : WExt) (c : Call) (s : WState) :
 
 end GW
 
+private theorem pure_apply' {α} (a : α) (fa : Option Nat) (d : Dev) : (pure a : M α) fa d = (.ok a, d) := rfl
+private theorem wpanic_apply {α} (st : String) (fa : Option Nat) (d : Dev) : (WriterIO.wPanic st : M α) fa d = (.panic st, d) := rfl
+private theorem ite_apply' {α} (c : Prop) [Decidable c] (x y : M α) (fa : Option Nat) (d : Dev) :
+    (if c then x else y) fa d = if c then x fa d else y fa d := by split <;> rfl
+private theorem wbind_apply {α β} (x : M α) (f : α → M β) (fa : Option Nat) (d : Dev) :
+    (x >>= f) fa d = match x fa d with
+      | (.ok a, d') => f a fa d'
+      | (.err e, d') => (.err e, d')
+      | (.panic s, d') => (.panic s, d') := rfl
+
+/-- **`impl Write for ZipWriter :: write` returns a failure of its sink call having changed NOTHING**: whenever it answers
+`Err(e)` with `e` anything but the 4 GiB refusal (`ErrorKind::Other`, which closes the writer), the writer state it hands
+back is the one it was called with - under every fault index, on every device.  So a caller's retry loop (`write_all`,
+`io::copy`) that sees `Interrupted` and calls it again re-issues exactly the one sink call: the reason why `wWrite` is a
+retried call in the `MI` instance of `WriterIO` (`Model/InterruptedW.lean`). -/
+theorem GW.write_error_leaves_state (acc : Bytes → Nat) (buf : Bytes) (s s' : WState) (fa : Option Nat) (d d' : Dev)
+    (e : ZErr) (h : (GW.write acc buf s : M _) fa d = (.ok (.error e, s'), d')) (he : e ≠ .io .other) : s' = s := by
+  rcases s with ⟨inner, files, ss, sb, sh, wf, wx, co, wr, cm⟩
+  unfold GW.write GW.account at h
+  cases wf <;> cases wx <;> rcases inner with _ | (_ | enc) | _ <;> cases hfl : files.getLast? <;>
+    simp only [Bool.not_false, Bool.not_true, Bool.false_eq_true, ↓reduceIte, hfl, pure_apply', wpanic_apply, ite_apply',
+      Prod.mk.injEq, Out.ok.injEq, Except.error.injEq, reduceCtorEq, false_and] at h
+  all_goals try (obtain ⟨⟨h1, h2⟩, _⟩ := h; first | exact h2.symm | exact absurd h1.symm he)
+  all_goals try (split at h <;> simp only [Prod.mk.injEq, Out.ok.injEq, Except.error.injEq, reduceCtorEq, false_and] at h)
+  all_goals try (obtain ⟨⟨h1, h2⟩, _⟩ := h; first | exact h2.symm | exact absurd h1.symm he)
+  all_goals
+    erw [wbind_apply] at h
+    have ha : (WriterIO.wAttempt (WriterIO.wWrite buf) : M _) fa d = M.attempt (M.write buf) fa d := rfl
+    rw [ha, M.attempt_apply] at h
+    rcases hw : M.write buf fa d with ⟨(n | e0 | p), d1⟩ <;> rw [hw] at h <;>
+      simp only [pure_apply', wpanic_apply, ite_apply', Prod.mk.injEq, Out.ok.injEq, Except.error.injEq, reduceCtorEq,
+        false_and] at h
+  all_goals try (obtain ⟨⟨h1, h2⟩, _⟩ := h; first | exact h2.symm | exact absurd h1.symm he)
+  all_goals try (split at h <;> simp only [Prod.mk.injEq, Out.ok.injEq, Except.error.injEq, reduceCtorEq, false_and] at h)
+  all_goals try (obtain ⟨⟨h1, h2⟩, _⟩ := h; first | exact h2.symm | exact absurd h1.symm he)
+
 /-- One call of the writer alphabet with std's `Interrupted` convention: the generic writer at `MI`. -/
 def stepI (ext : WExt) (c : Call) (s : WState) : M (Except ZErr (Option Nat) × WState) :=
   (GW.step (fun x => x.length) ext c s : MI _)
